@@ -8,6 +8,7 @@ package main
 import (
 	"bytes"
 	"crypto/sha256"
+	"encoding/hex"
 	"encoding/json"
 	"fmt"
 	"os"
@@ -509,13 +510,45 @@ func (w *world) macroLetters(base []letter) []letter {
 	return out
 }
 
+// idsOf: the pool ids of the messages of a letter (-1 = timeout).
+func (w *world) idsOf(l letter) []int32 {
+	out := []int32{w.pool.IDOf(l.msg)}
+	for _, m := range l.more {
+		out = append(out, w.pool.IDOf(m))
+	}
+	return out
+}
+
+// artefact describes a product history independently of this run: committee size, operator, start
+// value and the encoded messages in order ("timeout" for a round timeout).
+func (w *world) artefact(tag string, start byte, names []string, ids []int32) map[string]interface{} {
+	steps := make([]string, 0, len(ids))
+	for _, id := range ids {
+		if id < 0 {
+			steps = append(steps, "timeout")
+			continue
+		}
+		steps = append(steps, hex.EncodeToString([]byte(w.pool.List[id].Key)))
+	}
+	return map[string]interface{}{"config": tag, "n": w.c.N, "operator": uint64(w.me), "height": uint64(w.c.Height), "start": string(start), "path": names, "steps": steps}
+}
+
 // ---- search ----
 
 type node struct {
 	p       *product
 	path    []string
+	ids     []int32 // pool ids of the messages on the path (-1 = timeout), for the replay artefact
 	key     [32]byte
-	mutants int // number of mutated letters on the path
+	mutants int  // number of mutated letters on the path
+	start   byte // start value of the product ('A' when zero)
+}
+
+func (n node) start0() byte {
+	if n.start == 0 {
+		return 'A'
+	}
+	return n.start
 }
 
 type result struct {
@@ -588,14 +621,15 @@ func explore(r *ev.Run, w *world, start []byte, alpha []letter, maxTransitions i
 						res.Hist[cls]++
 						if diff != "" {
 							path := append(append([]string{}, n.path...), l.name)
-							r.Violate("differs-from-spec: "+short(diff)+decidedTag(diff, n.p), diff+" after "+l.name, "c06", map[string]interface{}{"config": tag, "path": path}, diff, "identical observable behaviour")
+							ids := append(append([]int32{}, n.ids...), w.idsOf(l)...)
+							r.Violate("differs-from-spec: "+short(diff)+decidedTag(diff, n.p), diff+" after "+l.name, "c06", w.artefact(tag, n.start0(), path, ids), diff, "identical observable behaviour")
 						} else if changed && collect && !seenSet[k2] {
 							seenSet[k2] = true
 							nm := n.mutants
 							if !l.base {
 								nm++
 							}
-							next = append(next, node{p: p2, key: k2, mutants: nm, path: append(append([]string{}, n.path...), l.name)})
+							next = append(next, node{p: p2, key: k2, mutants: nm, start: n.start, path: append(append([]string{}, n.path...), l.name), ids: append(append([]int32{}, n.ids...), w.idsOf(l)...)})
 							if len(seen)%2000 == 1 {
 								r.Sample(map[string]interface{}{"config": tag, "path": next[len(next)-1].path})
 							}
@@ -678,7 +712,8 @@ func explore(r *ev.Run, w *world, start []byte, alpha []letter, maxTransitions i
 				break
 			}
 			cur, _ := w.initial(qnet.Val(w.deepStart[pi]))
-			names := []string{"start value " + string(w.deepStart[pi])}
+			names := []string{}
+			var ids []int32
 			for _, b := range path {
 				var m *specqbft.SignedMessage
 				name := "timeout"
@@ -687,6 +722,7 @@ func explore(r *ev.Run, w *world, start []byte, alpha []letter, maxTransitions i
 					name = classOf(m)
 				}
 				names = append(names, name)
+				ids = append(ids, w.pool.IDOf(m))
 				wasDecided := cur.node.State.Decided
 				diff := w.step(cur, m)
 				if pass == 1 {
@@ -697,7 +733,7 @@ func explore(r *ev.Run, w *world, start []byte, alpha []letter, maxTransitions i
 						if wasDecided && strings.HasPrefix(diff, "compaction changed") {
 							tagD = " (instance already decided)"
 						}
-						r.Violate("differs-from-spec: "+short(diff)+tagD, diff+" after "+name+" (deep path)", "c06", map[string]interface{}{"config": tag, "path": append([]string{}, names...)}, diff, "identical observable behaviour")
+						r.Violate("differs-from-spec: "+short(diff)+tagD, diff+" after "+name+" (deep path)", "c06", w.artefact(tag, w.deepStart[pi], append([]string{}, names...), ids), diff, "identical observable behaviour")
 						break
 					}
 					continue
@@ -711,7 +747,7 @@ func explore(r *ev.Run, w *world, start []byte, alpha []letter, maxTransitions i
 				}
 				seen[k] = true
 				res.DeepStates++
-				_, used, _ := expand([]node{{p: cur, key: k, path: append([]string{}, names...)}}, mut, 1<<30, false)
+				_, used, _ := expand([]node{{p: cur, key: k, start: w.deepStart[pi], path: append([]string{}, names...), ids: append([]int32{}, ids...)}}, mut, 1<<30, false)
 				res.Transitions += used
 			}
 			if pass == 1 {
@@ -803,7 +839,8 @@ func main() {
 		jobs = []job{j}
 	}
 	if r.Replay != "" {
-		ev.Fatal("replay: re-run the check; the recorded path names the letters to apply from the start state")
+		replay(r)
+		return
 	}
 	hist := map[string]int{}
 	exhaustive := true
@@ -846,4 +883,52 @@ func main() {
 		"class-level BFS: a letter is k messages of one content class from its k lowest-numbered signers (k<=quorum; the first variant of a signer represents it), an aggregated message or a timeout; every message inside a letter is compared; own state set",
 		"splices: (state after the 1st/2nd timeout of any recorded history) x (continuation of any recorded history after as many timeouts), at most one burst of consecutive messages lost (quick: of one type and round), memoised on (product state, state of the continuations' minimal automaton, burst used); histories without loss first")
 	r.Finish(exhaustive)
+}
+
+// replay applies the recorded history (encoded messages and timeouts) to a fresh product of node,
+// compacted node and spec instance and reports the first difference.
+func replay(r *ev.Run) {
+	v, err := ev.LoadReplay(r.Replay)
+	if err != nil {
+		ev.Fatal("replay: %v", err)
+	}
+	t, ok := v.Trace.(map[string]interface{})
+	if !ok || t["steps"] == nil {
+		ev.Fatal("replay: artefact has no encoded steps (recorded by an older version: re-run the check)")
+	}
+	c := &qnet.Cfg{N: int(t["n"].(float64)), Height: specqbft.Height(t["height"].(float64)), MaxRound: 3, Role: spectypes.BNRoleAttester}
+	c.Init()
+	w := &world{c: c, me: spectypes.OperatorID(t["operator"].(float64)), pool: qnet.NewPool()}
+	start := byte('A')
+	if s, _ := t["start"].(string); s != "" {
+		start = s[0]
+	}
+	p, diff := w.initial(qnet.Val(start))
+	fmt.Printf("n=%d operator=%d height=%d start value %c\n", c.N, w.me, c.Height, start)
+	for i, st := range t["steps"].([]interface{}) {
+		var m *specqbft.SignedMessage
+		name := "timeout"
+		if st.(string) != "timeout" {
+			b, err := hex.DecodeString(st.(string))
+			if err != nil {
+				ev.Fatal("replay: step %d: %v", i, err)
+			}
+			m = w.pool.InternBytes(b, 0).Signed
+			name = classOf(m)
+		}
+		wasDecided := p.node.State.Decided
+		diff = w.step(p, m)
+		fmt.Printf("%3d %-60s node: round=%d decided=%v broadcasts=%d\n", i+1, name, p.node.State.Round, p.node.State.Decided, len(p.nNet.out))
+		if diff != "" {
+			tagD := ""
+			if wasDecided && strings.HasPrefix(diff, "compaction changed") {
+				tagD = " (instance already decided)"
+			}
+			fmt.Printf("VIOLATION property=C06 replay=%s\n  signature: differs-from-spec: %s%s\n  what: %s\n", r.Replay, short(diff), tagD, diff)
+			r.Finish(false)
+			return
+		}
+	}
+	fmt.Println("not reproduced: node, compacted node and spec agree on this history")
+	r.Finish(false)
 }
